@@ -83,7 +83,7 @@ def coupling(ev, v, scale=1.0):
 
 
 def correlations():
-    return oq.PowerLawSD(alpha=0.2, zeta=1.0, cutoff=3.0, cutoff_type="exponential", temperature=0.5)
+    return oq.PowerLawSD(alpha=0.5, zeta=1.0, cutoff=3.0, cutoff_type="exponential", temperature=0.5)
 
 
 def parameters(mem, eps, subdiv="default"):
@@ -196,9 +196,9 @@ def run_mf(*args):
     return robust(_run_mf, *args)
 
 
-def _run_tempo(op, d, v, syskind, statekind, mem, unique, eps):
+def _run_tempo(op, d, v, syskind, statekind, mem, unique, eps, subdiv="default"):
     bath = oq.Bath(op, correlations())
-    t = oq.Tempo(system(syskind, d, v), bath, parameters(mem, eps), state(statekind, d, v), START, unique=unique)
+    t = oq.Tempo(system(syskind, d, v), bath, parameters(mem, eps, subdiv), state(statekind, d, v), START, unique=unique)
     dyn = t.compute(END, progress_type="silent")
     return {"times": np.array(dyn.times), "states": np.array(dyn.states), "fields": None}
 
@@ -208,32 +208,40 @@ def _build_pt(op, mem, unique, eps):
     return oq.pt_tempo_compute(bath, START, END, parameters(mem, eps), unique=unique, progress_type="silent")
 
 
-def run_pt(pt, d, v, syskind, statekind):
+def run_pt(pt, d, v, syskind, statekind, subdiv="default"):
+    kw = {"subdiv_limit": None} if subdiv is None else {}
     dyn = oq.compute_dynamics(system(syskind, d, v), state(statekind, d, v), process_tensor=pt, start_time=START,
-                              progress_type="silent")
+                              progress_type="silent", **kw)
     return {"times": np.array(dyn.times), "states": np.array(dyn.states), "fields": None}
 
 
-def _run_mf(op, d, v, syskind, statekind, mem, unique, eps):
+def _run_mf(op, d, v, syskind, statekind, mem, unique, eps, subdiv="default"):
     bath = oq.Bath(op, correlations())
-    t = oq.MeanFieldTempo(mean_field_system(syskind, d, v), [bath], parameters(mem, eps), [state(statekind, d, v)],
+    t = oq.MeanFieldTempo(mean_field_system(syskind, d, v), [bath], parameters(mem, eps, subdiv), [state(statekind, d, v)],
                           FIELD0, start_time=START, unique=unique)
     dyn = t.compute(END, progress_type="silent")
     return {"times": np.array(dyn.times), "states": np.array(dyn.system_dynamics[0].states),
             "fields": np.array(dyn.fields)}
 
 
-def run_free(d, syskind, statekind):
-    """evolution without any bath (vacuity guard only, not an oracle), eigenbasis"""
-    v = np.eye(d, dtype=complex)
-    if syskind in MF_SYSTEMS:
-        dyn = oq.compute_dynamics_with_field(mean_field_system(syskind, d, v), FIELD0, dt=DT, num_steps=N,
-                                             initial_state_list=[state(statekind, d, v)], start_time=START,
-                                             progress_type="silent")
-        return np.array(dyn.system_dynamics[0].states)
-    dyn = oq.compute_dynamics(system(syskind, d, v), state(statekind, d, v), dt=DT, num_steps=N, start_time=START,
-                              progress_type="silent")
-    return np.array(dyn.states)
+_FREE = {}
+
+
+def free_states(d, syskind, statekind, subdiv="default"):
+    """Evolution without any influence of the bath, in the eigenbasis (vacuity guard only, never an oracle); cached per
+    worker.  Mean-field systems: MeanFieldTempo with a vanishing coupling operator (same integrator as the case)."""
+    key = (d, syskind, statekind, subdiv)
+    if key not in _FREE:
+        v = np.eye(d, dtype=complex)
+        if syskind in MF_SYSTEMS:
+            _FREE[key] = run_mf(np.zeros((d, d), dtype=complex), d, v, syskind, statekind, "dk2", True, 1e-6,
+                                subdiv)["states"]
+        else:
+            kw = {"subdiv_limit": None} if subdiv is None else {}
+            dyn = oq.compute_dynamics(system(syskind, d, v), state(statekind, d, v), dt=DT, num_steps=N,
+                                      start_time=START, progress_type="silent", **kw)
+            _FREE[key] = np.array(dyn.states)
+    return _FREE[key]
 
 
 def back_rotate(states, v):
